@@ -15,8 +15,9 @@ class TranslateError(Exception):
 
 
 PUNCT = [
-    "..=", "...", "<<=", ">>=",
-    "::", "->", "=>", "==", "!=", "<=", ">=", "&&", "||", "+=", "-=", "*=", "/=", "|=", "&=", "^=", "<<", ">>", "..",
+    "..=", "...",
+    # `<<` / `>>` are deliberately lexed as two tokens each (generic brackets `Vec<Vec<T>>` vs shifts)
+    "::", "->", "=>", "==", "!=", "<=", ">=", "&&", "||", "+=", "-=", "*=", "/=", "|=", "&=", "^=", "..",
     "{", "}", "(", ")", "[", "]", "<", ">", ",", ";", ":", "=", "&", "|", "!", "#", ".", "+", "-", "*", "/", "?", "@", "%", "^", "_", "$",
 ]
 _ident = re.compile(r"[A-Za-z_][A-Za-z0-9_]*")
@@ -197,6 +198,8 @@ class Cur:
         """Consume a whitespace-separated spec of punctuation / identifiers verbatim."""
         for s in spec.split():
             t = self.next()
+            if t[0] == "num" and s.isdigit() and t[1] == int(s):
+                continue
             if t[0] not in ("id", "p") or t[1] != s:
                 self.i -= 1
                 self.fail(f"expected `{s}` (template `{spec}`)")
